@@ -25,7 +25,7 @@ MIN_CASES = {"quick": 8000, "thorough": 150000}
 EXHAUSTIVE_CLAIM = True
 RULE = ("URL records = host x userinfo x port x path x query x fragment. Hosts: every domain of the four regex families (facebook.com/.fr/.net, fb.me, twitter.com, x.com, instagram.com, "
         "telegram.org/.me, t.me), of YOUTUBE_DOMAINS, SHORTENER_DOMAINS and SHOULD_RESOLVE_DOMAINS (quick: a seed-rotated 10% of the three lists, thorough: all; entries with a trailing dot skipped) "
-        "in 9 host classes (exact, upper, subdomain x2, upper subdomain, foreign label glued on x2 incl. 'netfli'+'x.com' / 'cha'+'t.me', followed by '.evil.fr', dot replaced), 'l.'-prefixed and neutral hosts. "
+        "in 9 host classes (exact, upper, subdomain x2, upper subdomain, foreign label glued on x2 incl. 'netfli'+'x.com' / 'cha'+'t.me', followed by '.evil.fr', dot replaced), 'l.'-prefixed hosts and their look-alikes, neutral hosts with and without a dot. "
         "Other components: plain texts and decoys carrying a site domain ('D@', 'D:pw@', 'user:D@', '/@D', '/x.D/', '/D', '?@D', '?u=x.D/abc', '#@D', ...). Exhaustive: regex-family hosts x every single "
         "component alternative x 13 decoy domains; list domains x host classes x 3 paths; then seeded random records with several components at once. Each record is evaluated by all 7 site predicates "
         "on 6 input forms. Path-only / host-only predicates: single and pairwise deviations (thorough: full product) of the other components around 17 paths / 11 hosts. "
